@@ -137,6 +137,9 @@ func Curated() []*Grammar {
 		{Name: "E->ExT|T;T->(a|ab)+", Rules: []*G{A(S(N(0), x, N(1)), N(1)), M1(A(a, S(a, b)))}, Finite: true, Recursive: true},
 		{Name: "P->Pa", Rules: []*G{S(N(0), a)}, Finite: true, Recursive: true},
 		{Name: "A->Ba;B->Ab", Rules: []*G{S(N(1), a), S(N(0), b)}, Finite: true, Recursive: true},
+		{Name: "R->Qax|Qb;Q->(ab)?", Rules: []*G{A(S(N(1), a, x), S(N(1), b)), O(S(a, b))}, Finite: true, LRFree: true},
+		{Name: "R->sup(Qx)|Qb;Q->(ab)?", Rules: []*G{A(SUP(S(N(1), x)), S(N(1), b)), O(S(a, b))}, Finite: true, LRFree: true},
+		{Name: "a%b", Rules: []*G{S(a, T('%'), b)}, Finite: true, LRFree: true},
 		{Name: "P->x?aP|b", Rules: []*G{A(S(O(x), a, N(0)), b)}, Finite: true, LRFree: true, Recursive: true},
 		{Name: "x(ab)*x", Rules: []*G{S(x, M(S(a, b)), x)}, Finite: true, LRFree: true},
 		{Name: "x sepby(ab,x) b", Rules: []*G{S(x, SB(S(a, b), x), b)}, Finite: true, LRFree: true},
@@ -316,6 +319,7 @@ func Sharing() []*Grammar {
 	m3 := A(a, S(a, a), S(a, a, a))
 	return uniq([]*Grammar{
 		{Name: "R->(M|x)b|(M|b)x;M->a|aa|aaa", Rules: []*G{A(S(A(N(1), x), b), S(A(N(1), b), x)), m3}, Finite: true},
+		{Name: "R->Mb|M?b;M->a?|ab", Rules: []*G{A(S(N(1), b), S(O(N(1)), b)), A(O(a), S(a, b))}, Finite: true},
 		{Name: "R->M?b|Mx;M->a|aa|aaa", Rules: []*G{A(S(O(N(1)), b), S(N(1), x)), m3}, Finite: true},
 		{Name: "R->(M|x)(M|b);M->a|aa", Rules: []*G{S(A(N(1), x), A(N(1), b)), A(a, S(a, a))}, Finite: true},
 		{Name: "R->(M|x)b|(M|b)x|(M|a)a;M->a|aa|aaa", Rules: []*G{A(S(A(N(1), x), b), S(A(N(1), b), x), S(A(N(1), a), a)), m3}, Finite: true},
